@@ -860,7 +860,7 @@ func (P) Generate(g0 *core.Gen) {
 		return
 	}
 	// thin slice: non-conflicting chains, no blocks beyond the base chain
-	for i := 0; i < g.N(40, 200); i++ {
+	for i := 0; i < g.N(60, 200); i++ {
 		r := g.R.Fork()
 		pol := policy{acceptNonStd: r.Bool(), maxOrphans: 100, maxOrphanSize: 100000, minRelayFee: 1000,
 			disablePriority: true, freeRelay: true}
@@ -909,7 +909,7 @@ func (P) Generate(g0 *core.Gen) {
 			g.Case("rbf-limit", true, s.line())
 		}
 	}
-	for i := 0; i < g.N(40, 400); i++ {
+	for i := 0; i < g.N(120, 800); i++ {
 		r := g.R.Fork()
 		pol := randomPolicy(r)
 		pol.maxOrphans = 100
@@ -924,7 +924,7 @@ func (P) Generate(g0 *core.Gen) {
 		}
 		g.Case("orphan-double-spends", len(s.defs) >= 3, s.line())
 	}
-	for i := 0; i < g.N(250, 2500); i++ {
+	for i := 0; i < g.N(800, 6000); i++ {
 		r := g.R.Fork()
 		s := newSim(r, randomPolicy(r), int(r.Pick(1, 2, 2, 3)))
 		s.scenario(int(r.Pick(8, 15, 25, 40)), false)
@@ -940,7 +940,7 @@ func (P) Generate(g0 *core.Gen) {
 			g.Case("concurrent-exploration", len(s.defs) >= 3, strings.Replace(s.line(), "C10 run ", "C10 conc ", 1))
 		}
 	}
-	for i := 0; i < g.N(400, 4000); i++ {
+	for i := 0; i < g.N(1200, 9000); i++ {
 		r := g.R.Fork()
 		s := newSim(r, randomPolicy(r), int(r.Pick(1, 2, 2, 3)))
 		s.scenario(int(r.Pick(10, 20, 30, 50)), true)
